@@ -46,6 +46,84 @@ fn region(pool: &Pool, lo: i32, hi: i32) -> &'static str {
     }
 }
 
+/// smallest amount whose value after the token program's transfer fee is at least `need` (None: beyond u64)
+fn fee_included(l: &Ledger, mint: &Pubkey, epoch: u64, need: u128) -> Option<u64> {
+    if need > u64::MAX as u128 {
+        return None;
+    }
+    let g = |x: u64| -> u128 { (x - crate::world::transfer_fee_of(l, mint, epoch, x).min(x)) as u128 };
+    if g(u64::MAX) < need {
+        return None;
+    }
+    let (mut lo, mut hi) = (need as u64, u64::MAX);
+    while lo < hi {
+        let mid = lo + (hi - lo) / 2;
+        if g(mid) >= need {
+            hi = mid;
+        } else {
+            lo = mid + 1;
+        }
+    }
+    Some(lo)
+}
+
+/// Liquidity instructions on pools whose mints are Token-2022 (transfer fee, transfer hook, ...): what reaches or leaves
+/// the vault is the exact amount; the caller's maximum bounds what is taken from them, the minimum what arrives.
+#[allow(clippy::too_many_arguments)]
+fn token_2022_pool(name: &str, c: &Call, v: &IxView, x: &Ctx, epoch: u64, idx: usize, cov: &mut Coverage, out: &mut Vec<Violation>) {
+    let (lo, hi) = (x.pre_pos.lower, x.pre_pos.upper);
+    let by_amounts = name == "increase_liquidity_by_token_amounts_v2";
+    let inc = name.starts_with("increase");
+    let (liq, bound_a, bound_b) = if by_amounts {
+        let mut r = c.args();
+        let _ = r.u8();
+        (x.post_pos.liquidity.wrapping_sub(x.pre_pos.liquidity), r.u64(), r.u64())
+    } else {
+        wpix::liq_args(c)
+    };
+    let (ea, eb) = model::liquidity_amounts(liq, x.pre_pool.tick_current_index, x.pre_pool.sqrt_price, lo, hi, inc);
+    let (ea_i, eb_i) = (ea.to_i128().unwrap_or(i128::MAX), eb.to_i128().unwrap_or(i128::MAX));
+    let fee_a = crate::world::transfer_fee_params(v.pre, &x.pre_pool.mint_a, epoch).is_some();
+    let fee_b = crate::world::transfer_fee_params(v.pre, &x.pre_pool.mint_b, epoch).is_some();
+    cov.eval(format!("{}|token2022|{}|fee_a={}|fee_b={}", name, region(&x.pre_pool, lo, hi), fee_a, fee_b));
+    cov.probe("token_2022_pool_liquidity_change_checked");
+    if c.a("token_owner_account_a") == x.pre_pool.vault_a || c.a("token_owner_account_b") == x.pre_pool.vault_b {
+        return;
+    }
+    if inc {
+        if x.vault_a < ea_i || x.vault_b < eb_i {
+            out.push(viol("token_amounts", idx, format!("{} L={} on {}..{}: the vaults received {} / {} but the exact rounded-up cost is {} / {}", name, liq, lo, hi, x.vault_a, x.vault_b, ea, eb)));
+            return;
+        }
+        // not more than the smallest amount that covers the cost after the transfer fee
+        for (side, mint, debit, need) in [("A", x.pre_pool.mint_a, -x.owner_a, ea_i), ("B", x.pre_pool.mint_b, -x.owner_b, eb_i)] {
+            match fee_included(v.pre, &mint, epoch, need.max(0) as u128) {
+                Some(s) if debit == s as i128 => {}
+                Some(s) => out.push(viol("token_amounts", idx, format!("{} L={}: the owner was debited {} of token {} but the smallest amount that leaves the exact cost {} after the transfer fee is {}", name, liq, debit, side, need, s))),
+                None => out.push(viol("token_amounts", idx, format!("{} L={}: succeeded although no u64 amount of token {} covers the cost {}", name, liq, side, need))),
+            }
+        }
+        if -x.owner_a > bound_a as i128 || -x.owner_b > bound_b as i128 {
+            out.push(viol("token_max_exceeded", idx, format!("{}: the owner was debited {} / {} which exceeds the caller's maximum {} / {}", name, -x.owner_a, -x.owner_b, bound_a, bound_b)));
+        }
+        if by_amounts && liq < u128::MAX && out.is_empty() {
+            let (na, nb) = model::liquidity_amounts(liq + 1, x.pre_pool.tick_current_index, x.pre_pool.sqrt_price, lo, hi, true);
+            let fits = |mint: &Pubkey, need: &BigUint, max: u64| need.to_u128().and_then(|n| fee_included(v.pre, mint, epoch, n)).map(|s| s <= max).unwrap_or(false);
+            if fits(&x.pre_pool.mint_a, &na, bound_a) && fits(&x.pre_pool.mint_b, &nb, bound_b) {
+                out.push(viol("not_largest_liquidity", idx, format!("derived liquidity {} but {} would also fit the maxima {} / {} (cost before transfer fees {} / {})", liq, liq + 1, bound_a, bound_b, na, nb)));
+            }
+        }
+    } else {
+        if -x.vault_a != ea_i || -x.vault_b != eb_i {
+            out.push(viol("token_amounts", idx, format!("{} L={} on {}..{}: the vaults paid {} / {} but the exact rounded-down proceeds are {} / {}", name, liq, lo, hi, -x.vault_a, -x.vault_b, ea, eb)));
+            return;
+        }
+        if x.owner_a < bound_a as i128 || x.owner_b < bound_b as i128 {
+            out.push(viol("token_min_subceeded", idx, format!("{}: the owner received {} / {} which is below the caller's minimum {} / {}", name, x.owner_a, x.owner_b, bound_a, bound_b)));
+        }
+    }
+}
+
 struct Ctx<'a> {
     c: &'a Call<'a>,
     pool_key: Pubkey,
@@ -105,6 +183,9 @@ impl Monitor for C08 {
                 "increase_liquidity" | "increase_liquidity_v2" | "decrease_liquidity" | "decrease_liquidity_v2" => {
                     let Some(x) = ctx(&c, &v) else { continue };
                     if !plain(v.pre, &x.pre_pool) {
+                        if name.ends_with("_v2") {
+                            token_2022_pool(name, &c, &v, &x, ev.clock.epoch, ev.idx, cov, &mut out);
+                        }
                         continue;
                     }
                     let inc = name.starts_with("increase");
@@ -247,6 +328,7 @@ impl Monitor for C08 {
                 "increase_liquidity_by_token_amounts_v2" => {
                     let Some(x) = ctx(&c, &v) else { continue };
                     if !plain(v.pre, &x.pre_pool) {
+                        token_2022_pool(name, &c, &v, &x, ev.clock.epoch, ev.idx, cov, &mut out);
                         continue;
                     }
                     let mut r = c.args();
